@@ -119,8 +119,10 @@ class DiscreteFourierTransformBase(Operator):
         self.__sign = sign
 
         # Calculate the range
+        # Use the effective flag: `halfcomplex` has no effect on complex spaces
         ran_shape = reciprocal_grid(
-            domain.grid, shift=False, halfcomplex=halfcomplex, axes=axes).shape
+            domain.grid, shift=False, halfcomplex=self.halfcomplex,
+            axes=axes).shape
 
         if range is None:
             impl = domain.tspace.impl
